@@ -39,6 +39,15 @@ class ConcreteAsymmetric(verde.base.BaseGridder):
 def P(est, k, x, y):
     if isinstance(est, AbstractGridder):
         return est.value(k, x, y)
+    if type(est).__name__ == "CheckerBoard":
+        import math
+
+        from .models_c03 import vcos, vsin
+
+        w, e, s, n = est.region
+        we = est.w_east if est.w_east is not None else (e - w) / 2
+        wn = est.w_north if est.w_north is not None else (n - s) / 2
+        return est.amplitude * vsin((2 * math.pi / we) * x) * vcos((2 * math.pi / wn) * y)
     return est.f(k, x, y)
 
 
@@ -83,11 +92,21 @@ class GetInstanceRegion(Contract):
     def raises(self, a):
         return [(ValueError, a.region is None and not hasattr(a.instance, "region_"))]
 
+    @staticmethod
+    def _fitted_region(inst):
+        # region_ may be a property that validates the region (CheckerBoard): run it as program code
+        c = ctx()
+        saved, c.in_spec = c.in_spec, 0
+        try:
+            return inst.region_
+        finally:
+            c.in_spec = saved
+
     def havoc(self, a):
-        return a.region if a.region is not None else a.instance.region_
+        return a.region if a.region is not None else self._fitted_region(a.instance)
 
     def ensures(self, a, r):
-        return {"given_region_else_the_fitted_one": r is (a.region if a.region is not None else a.instance.region_)}
+        return {"given_region_else_the_fitted_one": r is (a.region if a.region is not None else self._fitted_region(a.instance))}
 
 
 @register
@@ -492,3 +511,43 @@ class GridderScatter(Contract):
         for k, name in enumerate(dnames):
             out["data_%s_is_the_prediction_at_its_own_point" % name] = Forall((size,), lambda i, k=k, name=name: close(cd[name].at(i), P(est, k, *proj_point(a.projection, cd[dims[1]].at(i), cd[dims[0]].at(i))), 1e3))
         return out
+
+
+@register
+class CheckerBoardScatter(GridderScatter):
+    """CheckerBoard overrides scatter (same contract, no deprecation warning, the region defaults to its own)."""
+
+    target = "verde.synthetic:CheckerBoard.scatter"
+
+    def configs(self, tier):
+        return [{"region": True}, {"region": False, "proj": True}, {"region": False, "extra": "one", "dims": ("lat", "lon")}]
+
+    def setup(self, B, cfg):
+        from .models_c03 import _checker
+
+        est = _checker(B, "default")
+        est.ncomp = 1
+        kw = dict(region=_region_of(B) if cfg["region"] else None, size=B.int("size"), random_state=B.int("seed"))
+        if cfg.get("proj"):
+            kw["projection"] = SymProjection()
+        if cfg.get("dims"):
+            kw["dims"] = cfg["dims"]
+        if cfg.get("extra"):
+            kw["extra_coords"] = B.real("x0")
+        return (est,), kw
+
+    def requires(self, a):
+        w, e, s, n = a.region if a.region is not None else a.self.region
+        cw, ce, cs, cn = a.self.region
+        return and_(a.size >= 0, w <= e, s <= n, cw < ce, cs < cn)
+
+    def expect_warning(self, a):
+        return None
+
+    def samples(self, rng, nrng, tier):
+        import verde.synthetic
+
+        for _ in range(4):
+            est = verde.synthetic.CheckerBoard(amplitude=rng.uniform(1, 50), region=(rng.uniform(-5, 0), rng.uniform(1, 5), rng.uniform(-3, 0), rng.uniform(0.5, 9)))
+            est.ncomp = 1
+            yield (est,), dict(size=rng.choice([1, 10]), random_state=rng.randint(0, 99))
